@@ -545,6 +545,27 @@ def run(prog, rep, tier):
     if n89 == 0:
         raise CheckerError("R8.9: no array field is range-indexed by two renderer arms (idiom not recognised)")
 
+    # ------------------------------------------------------------ R8.10 string bytes of a record are copied, not reinterpreted
+    # Fixed-size string fields are arrays of c_char (i8 on most layouts).  A byte above 0x7F is a
+    # negative i8; converting with a *checked* i8 -> u8 conversion and substituting a constant on
+    # failure replaces every such byte (UTF-8 user names, Latin-1 host names) by that constant.
+    R810 = rep.rule("R8.10", "record string bytes are rendered bit for bit (no checked i8->u8 conversion with a substitute)")
+    ab2 = prog.body("s4lib::data::fixedstruct::FixedStruct::as_bytes")
+    chk = [c for c in ab2.live_calls() if ("TryInto<u8>" in c.f or "TryFrom<i8>" in c.f) and "i8" in c.f]
+    casts = 0
+    for bb in sorted(ab2.live):
+        for s_ in ab2.stmts(bb):
+            if s_[0] == "=" and s_[2][0] == "cast" and len(s_[1]) == 1 and s_[2][2][0] != "k":
+                l_ = op_local(s_[2][2])
+                if l_ is not None and str(ab2.local_ty(l_)) == "i8" and str(ab2.local_ty(s_[1][0])) == "u8":
+                    casts += 1
+    rep.examined(R810, ab2.path + "|c_char", sample={"checked_i8_to_u8_conversions": len(chk), "bit_preserving_casts": casts})
+    if chk:
+        rep.violation(R810, ab2.path + "|c_char", "FixedStruct::as_bytes converts string bytes with a checked i8 -> u8 conversion (%d sites, e.g. line %d) and substitutes a constant when it fails; every byte above 0x7F of a record's "
+                      "own field value is printed as that constant ('j\\0\\0rgen' for 'jürgen')" % (len(chk), chk[0].line))
+    elif casts == 0:
+        raise CheckerError("R8.10: neither checked conversions nor plain casts of c_char bytes found in as_bytes")
+
     return rep.finish(
         "Static necessary-condition check of the accounting-record reader: the ordering index cannot lose records with equal times (key "
         "contains the record offset), the index is walked minimum-first in map order removing the served key, the prefilter loop accepts "
